@@ -126,8 +126,18 @@ func ps8(p *core.Prog, rep *core.Report, sc ps8Scope) {
 						handled = true // spilled to the named result / a cell that is returned or tested
 					case ssa.CallInstruction:
 						handled = true // passed on (fail(err), fmt.Errorf("...", err), os.IsNotExist(err))
-					case *ssa.MakeInterface, *ssa.ChangeInterface, *ssa.Phi:
+					case *ssa.MakeInterface, *ssa.ChangeInterface:
 						handled = true
+					case *ssa.Phi:
+						// merged with another definition of the same variable: handled only if this definition cannot
+						// be overwritten before it is looked at - i.e. the phi itself is tested / returned and no other
+						// incoming edge of it is a LATER call result (err = f(); ...; err = g(); return err)
+						if phiKeeps(r, e) {
+							handled = true
+						} else {
+							verdict = "the error is assigned to a variable that a later call overwrites before it is tested or returned"
+							handled = true
+						}
 					case *ssa.BinOp:
 						if !core.IsNilConst(r.Y) && !core.IsNilConst(r.X) {
 							handled = true // compared with a sentinel
@@ -273,4 +283,21 @@ func regionPropagates(nonNil *ssa.BasicBlock, e ssa.Value, fn *ssa.Function) boo
 		}
 	}
 	return false
+}
+
+// phiKeeps: the phi merges e only with nil constants or with itself (conditional assignment idioms), not with the
+// result of another call that would overwrite e.
+func phiKeeps(ph *ssa.Phi, e ssa.Value) bool {
+	for _, ed := range ph.Edges {
+		if ed == e || ed == ssa.Value(ph) || core.IsNilConst(ed) {
+			continue
+		}
+		switch ed.(type) {
+		case *ssa.Call, *ssa.Extract:
+			return false
+		case *ssa.Phi:
+			continue
+		}
+	}
+	return true
 }
